@@ -37,6 +37,15 @@ func umfSome(r *rand.Rand) int {
 	return 0
 }
 
+// eqfSome: about one nested node in eight carries an EqualityPolicy that insists on a native peer (id 3): a nested
+// node's policy is handed the converted instance, so the alias tree and the native tree still compare equal both ways
+func eqfSome(r *rand.Rand) int {
+	if r.Intn(8) == 0 {
+		return 3
+	}
+	return 0
+}
+
 // genAliasCond: a Condition in a random form whose expression is a Stack (any form), a string, or a Condition again
 // (any form, cnest further levels - Condition in Condition to depth 3, a Stack possibly below the innermost one); every
 // Condition on the way may carry an Unmarshaler. F43: Unmarshal expands a held Condition through the public
@@ -57,13 +66,13 @@ func genAliasCond(r *rand.Rand, depth, cnest int, kw, op string) V {
 		nextLeaf++
 		ex = V{T: 's', S: fmt.Sprintf("v%d", nextLeaf)}
 	}
-	return V{T: 'C', Form: forms[r.Intn(4)], Cfg: Cfg{Umf: umfSome(r)}, Kw: kw, Op: op, Xs: []V{ex}}
+	return V{T: 'C', Form: forms[r.Intn(4)], Cfg: Cfg{Umf: umfSome(r), Eqf: eqfSome(r)}, Kw: kw, Op: op, Xs: []V{ex}}
 }
 
 // genAliasTree: a Stack in a random form; nested Stacks, nested Conditions and Condition-held Stacks may carry an
 // Unmarshaler (the caller clears the one of the top-level receiver)
 func genAliasTree(r *rand.Rand, depth int) V {
-	c := Cfg{Kind: []int{1, 2, 3, 4}[r.Intn(4)], Umf: umfSome(r)}
+	c := Cfg{Kind: []int{1, 2, 3, 4}[r.Intn(4)], Umf: umfSome(r), Eqf: eqfSome(r)}
 	if r.Intn(4) == 0 {
 		c.Opt |= fParen
 	}
@@ -96,6 +105,7 @@ func genAlias(r *rand.Rand, id string, tier string) string {
 	t := genAliasTree(r, 1+r.Intn(d))
 	t.Form = "n"
 	t.Cfg.Umf = 0 // never on the receiver itself here (stream closures does that)
+	t.Cfg.Eqf = 0
 	return t.String()
 }
 
